@@ -632,8 +632,12 @@ func (fx *FuncExec) findCaptured() {
 	for _, b := range fx.fn.Blocks {
 		for _, in := range b.Instrs {
 			if mc, ok := in.(*ssa.MakeClosure); ok {
-				for _, bv := range mc.Bindings {
-					fx.captured[bv] = true
+				cf := mc.Fn.(*ssa.Function)
+				for i, bv := range mc.Bindings {
+					// a captured variable can only change behind our back if some closure writes it
+					if i < len(cf.FreeVars) && freeVarWritten(cf.FreeVars[i], 0) {
+						fx.captured[bv] = true
+					}
 				}
 			}
 		}
@@ -1426,6 +1430,17 @@ func (fx *FuncExec) finish() {
 	if fx.fc == nil {
 		return
 	}
+	// ghost updates attached to the return (they may read locals and results)
+	for _, g := range fx.fc.Ghost {
+		if g.At == "return" {
+			genv := fx.specEnv(exit, fx.entry)
+			genv.results = results
+			l := fx.evalLoc(genv, g.LHS.Expr)
+			genv.clauseSrc = g.RHS.Src
+			v := fx.evalSpec(genv, g.RHS.Expr)
+			fx.Store(exit, l, v)
+		}
+	}
 	env := fx.specEnv(exit, fx.entry)
 	env.results = results
 	env.atReturn = true
@@ -1542,4 +1557,32 @@ func (fx *FuncExec) havocForLoop(li *loopInfo, pre *State, wl map[string]bool, c
 		fx.em.Assert(fmt.Sprintf("(forall ((r Int)) (! (=> %s (= (select %s r) (select %s r))) :pattern ((select %s r)) :pattern ((select %s r))))", and(conds...), nh, h0, nh, h0))
 	}
 	return st
+}
+
+// freeVarWritten: does the closure (or a closure nested in it) store to this captured variable?
+func freeVarWritten(fv *ssa.FreeVar, depth int) bool {
+	if depth > 4 {
+		return true
+	}
+	for _, r := range *fv.Referrers() {
+		switch x := r.(type) {
+		case *ssa.Store:
+			if x.Addr == fv {
+				return true
+			}
+			return true // the address itself is stored somewhere
+		case *ssa.UnOp:
+		case *ssa.MakeClosure:
+			cf := x.Fn.(*ssa.Function)
+			for i, b := range x.Bindings {
+				if b == fv && i < len(cf.FreeVars) && freeVarWritten(cf.FreeVars[i], depth+1) {
+					return true
+				}
+			}
+		case *ssa.DebugRef:
+		default:
+			return true
+		}
+	}
+	return false
 }
